@@ -148,6 +148,10 @@ class LamList:
         self.var, self.elt, self.env = var, elt, env
 
 
+class Params(dict):
+    """the form parameter object w (FormExtraParams): attribute access to its entries"""
+
+
 class FuncRef:
     def __init__(self, fdef):
         self.fdef = fdef
@@ -233,7 +237,7 @@ class Interp:
             return env[n.id]
         if n.id in self.funcs:
             return FuncRef(self.funcs[n.id])
-        if n.id in ('np', 'jnp', 'zeros_like', 'len', 'range', 'isinstance', 'sum', 'tuple', 'JaxDiscreteField',
+        if n.id in ('np', 'jnp', 'zeros_like', 'len', 'range', 'isinstance', 'sum', 'tuple', 'JaxDiscreteField', 'hasattr', 'enumerate',
                     'DiscreteField', 'ValueError', 'NotImplementedError'):
             return ('builtin', n.id)
         raise TranslateError(f'unknown name {n.id}')
@@ -244,6 +248,10 @@ class Interp:
             raise ModelRaise(f"AttributeError: 'NoneType' object has no attribute '{n.attr}' in {t2.src(n)}")
         if isinstance(v, tuple) and v and v[0] == 'builtin':
             return ('builtin', v[1] + '.' + n.attr)
+        if isinstance(v, Params):
+            if n.attr not in v:
+                raise ModelRaise(f"AttributeError: Attribute '{n.attr}' not found in 'w'")
+            return v[n.attr]
         if isinstance(v, Field) and n.attr != 'shape':
             if n.attr not in FIELD_ATTRS:
                 raise TranslateError(f'field attribute {n.attr}')
@@ -312,6 +320,9 @@ class Interp:
         ops = {ast.Add: '+', ast.Sub: '-', ast.Mult: '*', ast.Div: '/'}
         if type(n.op) in ops:
             return self.binop(ops[type(n.op)], a, b)
+        if isinstance(n.op, ast.Pow) and all(isinstance(x, (int, float)) and not isinstance(x, bool) for x in (a, b)) \
+                and isinstance(b, int) and 0 <= b <= 4:
+            return a ** b
         if isinstance(n.op, ast.Pow) and isinstance(b, int) and not isinstance(b, bool) and 1 <= b <= 4:
             r = a
             for _ in range(b - 1):
@@ -468,6 +479,18 @@ class Interp:
             if cls == 'tuple':
                 return isinstance(args[0], tuple) and not (args[0] and args[0][0] == 'builtin')
             raise TranslateError('isinstance class ' + cls)
+        if name == 'hasattr':
+            if kw or len(args) != 2 or not isinstance(args[0], Params) or not isinstance(args[1], str):
+                raise TranslateError('hasattr call: ' + t2.src(n))
+            return args[1] in args[0]
+        if name == 'enumerate':
+            if kw or len(args) != 1 or not isinstance(args[0], (list, tuple)):
+                raise TranslateError('enumerate call: ' + t2.src(n))
+            return [(k, x) for k, x in enumerate(args[0])]
+        if name == 'tuple':
+            if kw or len(args) != 1 or not isinstance(args[0], list):
+                raise TranslateError('tuple call: ' + t2.src(n))
+            return tuple(args[0])
         if name == 'sum':
             if kw or len(args) != 1 or not isinstance(args[0], list):
                 raise TranslateError('sum call')
@@ -502,10 +525,13 @@ class Interp:
         if self.depth > 6:
             raise TranslateError('helper recursion too deep')
         a = fdef.args
-        if a.vararg or a.kwarg or a.kwonlyargs or a.posonlyargs:
+        if a.kwarg or a.kwonlyargs or a.posonlyargs:
             raise TranslateError(f'{fdef.name}: signature')
         names = [x.arg for x in a.args]
         env = {}
+        if a.vararg:
+            env[a.vararg.arg] = tuple(args[len(names):])
+            args = args[:len(names)]
         defaults = dict(zip(names[len(names) - len(a.defaults):], a.defaults))
         if len(args) > len(names):
             raise TranslateError(f'{fdef.name}: too many arguments')
@@ -577,6 +603,13 @@ class Interp:
             return
         if isinstance(s, ast.For):
             it = self.ev(s.iter, env)
+            if (not s.orelse and isinstance(s.target, ast.Tuple) and all(isinstance(e, ast.Name) for e in s.target.elts)
+                    and isinstance(it, list) and all(isinstance(x, tuple) and len(x) == len(s.target.elts) for x in it)):
+                for x in it:
+                    for e, val in zip(s.target.elts, x):
+                        env[e.id] = val
+                    self.block(s.body, env)
+                return
             if s.orelse or not isinstance(s.target, ast.Name) or not isinstance(it, range):
                 raise TranslateError('for statement: ' + t2.src(s)[:80])
             for k in it:
@@ -741,7 +774,29 @@ UNWRAP = [('jx_dot_fld', 'jx_dot'), ('jx_ddot_fld', 'jx_ddot'), ('jx_dddot_fld',
           ('jx_transpose_fld', 'jx_transpose')]
 # functions of the two modules that are deliberately not modelled (must still exist; anything ELSE that
 # appears in the modules is a translator failure: a new helper has no theorem)
-NP_SKIP = {'jump'}
+NP_SKIP = set()
+JUMP_CASES = [('none', None, 2), ('01', (0, 1), 2), ('10', (1, 0), 2), ('0', (0,), 1), ('1', (1,), 1)]
+
+
+def jump_defs(it):
+    """``jump(w, *args)``: each argument is multiplied by (-1) ** w.idx[i]; without w.idx the arguments are returned"""
+    if 'jump' not in it.funcs:
+        raise TranslateError('jump: not defined')
+    out = []
+    for tag, idx, nargs in JUMP_CASES:
+        it.n, it.fresh, it.depth = NSym(), 0, 0
+        w = Params() if idx is None else Params(idx=idx)
+        syms = [Sym(0, (lambda _i, nm=nm: nm), term=nm) for nm in ['u', 'v'][:nargs]]
+        try:
+            res = it.call(it.funcs['jump'], [w] + syms, {})
+        except ModelRaise as e:
+            raise TranslateError(f'jump [{tag}]: raises {e.what}')
+        comps = list(res) if isinstance(res, tuple) else [res]
+        if len(comps) != nargs:
+            raise TranslateError(f'jump [{tag}]: returns {len(comps)} values for {nargs} arguments')
+        for k, c in enumerate(comps):
+            out.append(f'(* jump, w.idx = {idx}, component {k} *)\nDefinition np_jump_{tag}_{k} (u v : R) : R :=\n  {it.scalar(c).at([])}.\n')
+    return out
 JX_SKIP = set()
 
 HEADER = '''(* GENERATED by vlib/c20_tr.py from {src} -- do not edit *)
@@ -758,7 +813,7 @@ def generate(variant):
     """-> (Coq text of Gen/C20Gen_<variant>.v, {defname: (params, result rank, n)}, {defname: (func, exception)})"""
     src, scen, skip = (NP_SRC, NP_SCEN, NP_SKIP) if variant == 'np' else (JX_SRC, JX_SCEN, JX_SKIP)
     it = Interp(src, variant)
-    covered = {f for _, f, _, _ in scen} | skip
+    covered = {f for _, f, _, _ in scen} | skip | ({'jump'} if variant == 'np' else set())
     extra = sorted(set(it.funcs) - covered)
     if extra:
         raise TranslateError(f'{src}: helper(s) without a model/theorem: {extra}')
@@ -777,6 +832,8 @@ def generate(variant):
             continue
         out.append(f'(* {func}, scenario n={n} *)\n{txt}\n')
         meta[name] = (params, rr, n)
+    if variant == 'np':
+        out += jump_defs(it)
     out.append('End Gen.\n')
     return '\n'.join(out), meta, raises
 
